@@ -43,6 +43,10 @@ def cases(tier, seed):
     # (sizes just above 1000 with n mod k in {0, 1, 2}: per-block leftovers would add up to more than one extra point)
     for m_ in (1002, 1004, 1101) + ((2050,) if tier == "thorough" else ()):
         yield {"kind": "bigbatch", "k": 3, "m": m_, "strategy": "distance"}
+    # many clusters (k beyond any small constant: 33, 40, 70) on skewed data with n mod k != 0, fit and balanced prediction
+    for (k, n_) in ((33, 70), (40, 125), (40, 205), (70, 163)) + (((40, 163), (64, 200), (100, 250)) if tier == "thorough" else ()):
+        for strategy in ("distance", "gain"):
+            yield {"kind": "manyk", "k": k, "n": n_, "strategy": strategy, "seeds": [0, 1] if tier == "quick" else [0, 1, 2, 3]}
     # every initial label vector (kmeans0=False) on a few data sets
     datasets = [[[0.0], [1.0], [2.0], [3.0], [4.0]], [[0.0], [0.0], [1.0], [3.0], [3.0]],
                 [[0.0, 0.0], [1.0, 0.0], [0.0, 1.0], [2.0, 2.0], [2.0, 1.0]],
@@ -216,6 +220,36 @@ def run_case(case):
         if not _sizes_ok(bc, mrows, k):
             bad("balanced predict size outside floor/ceil", "strategy=%s,large batch" % case["strategy"], "sizes %r for a batch of %d rows, k=%d" % (bc, mrows, k))
         return {"viol": viol, "nontrivial": True, "states": 1, "transitions": mrows, "outcome": tuple(bc)}
+    if case["kind"] == "manyk":
+        k, n = case["k"], case["n"]
+        for sd in case["seeds"]:
+            rs_ = numpy.random.RandomState(100 + sd)
+            # a dense blob plus a few isolated points: most points' closest clusters fill up early
+            Xk = numpy.vstack([rs_.randn(n - 12, 2) * 0.3, rs_.randn(12, 2) * 5.0 + 20.0])
+            m = _one_fit(numpy, ConstraintKMeans, Xk, k, case["strategy"], True, sd, sd, sd, bad, max_iter=5)
+            cnt += 1
+            if m is None or not hasattr(m, "cluster_centers_"):
+                continue
+            outcomes.add((k, tuple(sorted(numpy.bincount(m.labels_, minlength=k).tolist()))))
+            mb = ConstraintKMeans(n_clusters=k, strategy=case["strategy"], random_state=sd, max_iter=5, n_init=2, balanced_predictions=True)
+            for att in ("cluster_centers_", "labels_", "inertia_", "n_iter_", "weights_", "n_features_in_", "_n_threads"):
+                if hasattr(m, att):
+                    setattr(mb, att, getattr(m, att))
+            for msz in (n, n + 38, k + 1, 2 * k - 1):
+                B = rs_.randn(msz, 2) * 0.5 + 3.0        # one-sided batch
+                numpy.random.seed(sd)
+                bcond = "strategy=%s,%s,m mod k = %s" % (case["strategy"], "m<k" if msz < k else "m>=k", msz % k if msz % k < 2 else ">=2")
+                try:
+                    with _OwnRS(sd):
+                        bl = numpy.asarray(mb.predict(B))
+                except Exception as e:
+                    bad("balanced predict raises %s" % type(e).__name__, bcond, "%s k=%d batch of %d rows" % (str(e)[:200], k, msz))
+                    continue
+                cnt += 1
+                bc = numpy.bincount(bl, minlength=k).tolist() if bl.shape == (msz,) and bl.min() >= 0 and bl.max() < k else None
+                if bc is None or not _sizes_ok(bc, msz, k):
+                    bad("balanced predict size outside floor/ceil", bcond, "sizes %r for a one-sided batch of %d rows, k=%d, seed %d" % (bc, msz, k, sd))
+        return {"viol": viol, "nontrivial": True, "states": cnt, "transitions": cnt, "outcome": tuple(sorted(outcomes))[:50]}
     if case["kind"] == "medium":
         k, n = case["k"], case["n"]
         for sd in case["seeds"]:
